@@ -127,6 +127,54 @@ CHECKS = {
         "invisible.",
         "DESIGN.md 3/C01",
     ),
+    "C02": (
+        "Hypothesis-sampled product of payload x stream kind x threshold x arming path x injected "
+        "fault; two-sided differential against a separately taken verdict and the stock "
+        "unpickler, with sink + audit-event oracle for the fail-closed clause",
+        "Generated-input / fault-injection search: every checked-load path is driven over "
+        "harmless flagged payloads, benign values and inputs on which analysis raises, through "
+        "six stream kinds incl. a flip stream that changes content between analysis and load, at "
+        "all six thresholds, with the analysis call optionally made to raise; returns must be "
+        "justified by the verdict and equal the stock unpickler's result, refusals must leave the "
+        "sink log and find_class audit events empty.",
+        "Trusted: stock unpickler as reference; harness monkeypatch of the loader's analysis call "
+        "as the fault/flip hook; KF-C02-1 (per-offset double read) is an open known finding.",
+        "DESIGN.md 3/C02",
+    ),
+    "C08": (
+        "Hypothesis-generated base pickles x all 21 injection modes x two loaders; sink-log / "
+        "return-value / reference-VM stack / find_class-subsequence / single-STOP / severity oracle",
+        "Generated-input search: each base (values, instances, effectful objects, >255 memo "
+        "entries, assembler programs with sparse memo keys; all protocols) is rewritten by every "
+        "injection mode and loaded by the accelerated and (unframed) pure-Python unpickler; the "
+        "payload must run exactly once with the given arguments, base effects keep their order, "
+        "the value is preserved/replaced as documented, the VM stack is empty at STOP.",
+        "Trusted: stock unpicklers; pickle._Unpickler over stubs for the stack clause (FRAME "
+        "opcodes stripped for it); KF-C08-1 and KF-C08-2 are open known findings.",
+        "DESIGN.md 3/C08",
+    ),
+    "C10": (
+        "Hypothesis-generated stacks x CLI options: all faces recomputed from one severity vector; "
+        "exhaustive 36x6 comparison table",
+        "Generated-input search over stacked files from benign and flagged families: library "
+        "verdict, is_likely_safe, checked loader, CLI exit status and the JSON report must all be "
+        "the stated functions of the per-pickle severity; the full operator table of Severity is "
+        "enumerated against integer ranks.",
+        "Trusted: own rank table from the documented order; json module for the report.",
+        "DESIGN.md 3/C10",
+    ),
+    "C18": (
+        "Hypothesis-generated stacks x every target/flag/input-channel combination through "
+        "cli.main in-process (+ real subprocess sample); re-parse / byte-equality / library "
+        "differential; compile + stub execution of the decompiled stack",
+        "Generated-input search: CLI injection output must re-parse into exactly the input stack "
+        "with only the target changed to the library-level injection; out-of-range targets must "
+        "fail and emit nothing; the decompiled stack must be one valid program with one result "
+        "name per pickle, disjoint variables, and stub-executed values equal to the reference VM's.",
+        "Trusted: library-level insert_python_eval (decided by C08) as the injection reference; "
+        "pickle._Unpickler over stubs for values.",
+        "DESIGN.md 3/C18",
+    ),
 }
 
 PENDING = {}
